@@ -67,8 +67,14 @@ def serial_send_units(prop):
     # ------------------------------------------------------------ LUBA / SCI send(): silent bus, answer, stale answers
     for gw in ("luba", "sci"):
         for vname, twice, rc in FLAG_VARIANTS:
-            for nstale, in_tx in ((0, False), (1, False), (2, False), (1, True), (2, True)):
-                def r_ser(ctx, interp, fn, gw=gw, twice=twice, rc=rc, nstale=nstale, in_tx=in_tx):
+            # (stale answers, stale information items, inside a transaction); ninfo None = as many as stale answers.  The
+            # last four rows are the flush's second half on its own: leftover confirmations / error reports (a 'DALI
+            # receive error' that arrived after the confirmation was consumed) while NO answer is left over
+            rows = [(0, None, False), (1, None, False), (2, None, False), (1, None, True), (2, None, True)]
+            if gw == "sci":
+                rows += [(0, 1, False), (0, 2, False), (0, 1, True), (0, 2, True)]
+            for nstale, ninfo, in_tx in rows:
+                def r_ser(ctx, interp, fn, gw=gw, twice=twice, rc=rc, nstale=nstale, ninfo=ninfo, in_tx=in_tx):
                     world = World(ctx, interp)
                     install(interp, world)
                     cmd, fr = abstract_command(ctx, 16, twice, rc)
@@ -89,9 +95,16 @@ def serial_send_units(prop):
                         PSET["_tx_lock"] = world.lock("tx")
                         PSET["transport"] = world.transport()
                         PSET["_device_settings"] = SER.DriverSCIRS232.SCIRS232DeviceSettings(True, False, True)
+                        provided = []
+
+                        def gateway_confirms(q):
+                            # the gateway's confirmation of THIS command: it exists only after the command was written
+                            provided.append(len(world.writes))
+                            q.items.append(SER.DriverSCIRS232.SCIRS232DeviceReply(id=ctx.fresh_int("id", 0, 15), code=0))
                         PSET["_queue_rx_info"] = world.queue(
-                            "info", items=[SER.DriverSCIRS232.SCIRS232DeviceReply(id=0, code=0) for _ in range(nstale)],
-                            provider=lambda q: q.items.append(SER.DriverSCIRS232.SCIRS232DeviceReply(id=ctx.fresh_int("id", 0, 15), code=0)))
+                            "info", items=[SER.DriverSCIRS232.SCIRS232DeviceReply(id=0, code=0 if ninfo is None else 7)
+                                           for _ in range(nstale if ninfo is None else ninfo)],
+                            provider=gateway_confirms)
                         drvcls, send = SER.DriverSCIRS232, SER.DriverSCIRS232.send
                     rawq = PSET["_queue_rx_raw_dali"]
                     rawq.items.extend(stale)
@@ -115,6 +128,15 @@ def serial_send_units(prop):
                         # a confirmation / connection timeout is the documented failure mode
                         ctx.prove("only-timeouts-raise", out[1].__name__ in ("TimeoutError",), detail="raised %s at %s" % (out[1].__name__, out[3]))
                         return
+                    if gw == "sci":
+                        # pairing of the transmit confirmation (the answer window opens at the confirmation): what send
+                        # consumed as its confirmation is the gateway's report for this command, not a leftover one
+                        left = PSET["_queue_rx_info"].items
+                        ctx.prove("transmit-confirmation-is-this-commands-own-not-a-leftover-report",
+                                  len(provided) == 1 and provided[0] >= 1 and not left,
+                                  detail="leftover information items before the command: %d; confirmations taken from the gateway "
+                                         "after the write: %d; items still queued afterwards: %d"
+                                         % (nstale if ninfo is None else ninfo, len(provided), len(left)))
                     if rc is None:
                         check_response(ctx, interp, out, rc, None)
                         return
@@ -132,7 +154,8 @@ def serial_send_units(prop):
                         return
                     ctx.prove("answer-is-this-commands-own-never-a-stale-one", And(answered, raw._data == answer),
                               detail="stale answers queued before the command: %d" % nstale)
-                unit("%s/send/%s/stale=%d%s" % (gw, vname, nstale, "/in-transaction" if in_tx else ""), r_ser)
+                unit("%s/send/%s/stale=%d%s%s" % (gw, vname, nstale, "" if ninfo is None else "/leftover-info=%d" % ninfo,
+                                                  "/in-transaction" if in_tx else ""), r_ser)
 
     return U
 
